@@ -120,6 +120,20 @@ func (op *pipelineOp) exec(fm *Frame) Exception {
 			// os.Pipe sets O_CLOEXEC, which is what we want.
 			reader, writer, e := os.Pipe()
 			if e != nil {
+				// This form and the following ones never start. Release the
+				// pipe that this form would have read from, and wait for the
+				// forms that have already been started.
+				if inputIsPipe {
+					*nextIn.sendError = errs.ReaderGone{}
+					close(nextIn.sendStop)
+					nextIn.readerGone.Store(true)
+					nextIn.File.Close()
+				}
+				wg.Add(i - nforms)
+				wg.Wait()
+				if op.bg {
+					fm.Evaler.addNumBgJobs(-1)
+				}
 				return fm.errorpf(op, "failed to create pipe: %s", e)
 			}
 			ch := make(chan any, pipelineChanBufferSize)
